@@ -5,6 +5,10 @@ Tie: translator (all closed forms of Weibull / Gumbel / GumbelMin / empirical_cd
 correspondence of every method (cdf, pdf, invcdf incl. masks and defaults, mean, std, skew, kurt, median, mode, rnd).
 Search: coherence clauses evaluated on the implementation: cdf monotone within [0,1], invcdf∘cdf = id, pdf = numerical
 derivative of cdf, reported moments = numerical quadrature of x^k·pdf (a measurement), rnd = invcdf(uniforms), seeded.
+Far tails (|x - loc| = 20 … 1e6 scales, where exp() under/overflows): cdf stays in [0,1] and monotone, the density stays finite,
+non-negative and bounded by the cdf increment over one scale (mean-value form of "density = derivative of the cdf").
+rnd histories: several draws on one object / two objects, seeded and unseeded mixed, scalar / int / tuple sizes, the stream
+started by rnd(seed=…) or by the caller's np.random.seed: every draw is invcdf of the continued uniform stream; run twice = same.
 """
 import math
 
@@ -18,7 +22,10 @@ USES_TRANSLATOR = True
 ANCHOR_PREFIX = ("wb_", "gu_", "gm_", "ecdf_")
 RULE = ("seeded parameters: loc in [-50,50], scale log-uniform [1e-2,1e2], Weibull shape in [0.5,8]; x on a grid over the bulk of "
         "the support, p in (0,1) plus 0, 1 and out-of-range values; non-trivial = every parameter set (all are non-default); "
-        "distinct by (distribution, parameters)")
+        "distinct by (distribution, parameters); far-tail x = loc +- scale*{20,40,200,700,709,710,745,750,1e3,1e4,1e6}; rnd histories of "
+        "2-5 draws (size None/int/tuple, seed given or None) on the object and a second object, started by a seeded draw or by "
+        "np.random.seed; corpus/C15 cases first")
+TAIL_K = (20.0, 40.0, 200.0, 700.0, 709.0, 710.0, 745.0, 750.0, 1e3, 1e4, 1e6)
 
 
 def ext(o):
@@ -61,6 +68,96 @@ def quad_moments(d, kind, par):
     return m, math.sqrt(v), s, k
 
 
+def tail_clauses(d, kind, par):
+    """far-tail clauses; returns a list of (oracle, expected, observed, x-values)"""
+    loc, scale = par[0], par[1]
+    K = np.array(TAIL_K)
+    out = []
+    sides = [(+1, loc + scale * K)] + ([] if kind == "wb" else [(-1, (loc - scale * K)[::-1])])
+    for sgn, xs in sides:
+        side = "upper" if sgn > 0 else "lower"
+        try:
+            with np.errstate(all="ignore"):
+                c = np.asarray(d.cdf(x=xs), dtype=float)
+                f = np.asarray(d.pdf(x=xs), dtype=float)
+                # cdf increment over one scale on the side away from the mode (density is monotone there)
+                inc = (np.asarray(d.cdf(x=xs), dtype=float) - np.asarray(d.cdf(x=xs - scale), dtype=float)) if sgn > 0 else \
+                      (np.asarray(d.cdf(x=xs + scale), dtype=float) - np.asarray(d.cdf(x=xs), dtype=float))
+        except Exception as e:
+            out.append(("cdf/pdf are defined in the far %s tail" % side, "values", "%s: %s" % (type(e).__name__, e), xs.tolist()))
+            continue
+        if not (np.all(np.isfinite(c)) and np.all(c >= 0) and np.all(c <= 1) and np.all(np.diff(c) >= 0)):
+            out.append(("cdf non-decreasing within [0,1] (far %s tail)" % side, "monotone in [0,1]", c.tolist(), xs.tolist()))
+        if not (np.all(np.isfinite(f)) and np.all(f >= 0)):
+            out.append(("the density is finite and non-negative in the far %s tail (derivative of a non-decreasing cdf)" % side,
+                        ">= 0, finite", f.tolist(), xs.tolist()))
+        elif np.all(np.isfinite(inc)) and np.any(f * scale > inc * (1 + 1e-9) + 4e-16):
+            out.append(("far %s tail: pdf(x)*scale <= cdf increment over one scale away from the mode (pdf = d cdf/dx, monotone "
+                        "there; slack 4e-16 for the rounding of cdf near 1)" % side, inc.tolist(), (f * scale).tolist(), xs.tolist()))
+    return out
+
+
+def gen_history(rng, others):
+    """a history of rnd draws: [size, seed-or-None, object index]; the stream starts from a seed (caller's or first draw's)"""
+    sizes = [None, 1, 3, 5, [2, 3], rng.randint(1, 9)]
+    n = rng.randint(2, 5)
+    gseed = rng.choice([None, 7, rng.randint(0, 2 ** 31 - 1)])
+    steps = []
+    for i in range(n):
+        seed = rng.choice([None, None, 0, 21, rng.randint(0, 2 ** 31 - 1)])
+        if i == 0 and gseed is None and seed is None:
+            seed = rng.choice([0, 21, 12345])
+        steps.append([rng.choice(sizes), seed, rng.choice([0, 0, 1])])
+    if all(st[1] is not None for st in steps):
+        steps[-1][1] = None               # at least one draw that continues the stream
+    ok, op = rng.choice(others)
+    return dict(global_seed=gseed, steps=steps, other=dict(dist=ok, params=list(op)))
+
+
+def run_history(d, hist):
+    """-> (got, expected): the draws and invcdf of the uniform stream of the governing seed, continued over the calls"""
+    objs = [d, make(hist["other"]["dist"], tuple(hist["other"]["params"]))]
+    rs = None
+    np.random.seed(424242)                # some unrelated earlier state
+    if hist["global_seed"] is not None:
+        np.random.seed(hist["global_seed"])           # the caller seeds numpy's generator
+        rs = np.random.RandomState(hist["global_seed"])
+    got, exp = [], []
+    for size, seed, who in hist["steps"]:
+        size = tuple(size) if isinstance(size, list) else size
+        o = objs[who]
+        if seed is not None:
+            rs = np.random.RandomState(seed)
+            g = o.rnd(size=size, seed=seed)
+        else:
+            g = o.rnd(size=size) if size is not None else o.rnd()
+        u = rs.random_sample(size)
+        with np.errstate(all="ignore"):
+            exp.append(np.asarray(o.invcdf(p=u), dtype=float))
+        got.append(np.asarray(g, dtype=float))
+    return got, exp
+
+
+def history_clauses(d, hist):
+    out = []
+    try:
+        g1, e1 = run_history(d, hist)
+        g2, _ = run_history(d, hist)
+    except Exception as e:
+        return [("rnd draws succeed", "samples", "%s: %s" % (type(e).__name__, e))]
+    same = lambda a, b: a.shape == b.shape and np.allclose(a, b, rtol=1e-14, atol=0, equal_nan=True)
+    for i, (g, e) in enumerate(zip(g1, e1)):
+        if not same(g, e):
+            out.append(("rnd: draw %d of the history is invcdf of numpy's uniform stream continued from the governing seed "
+                        "(seed argument of this or an earlier draw, else the caller's np.random.seed)" % i,
+                        e.ravel().tolist(), g.ravel().tolist()))
+            break
+    if not all(a.shape == b.shape and np.array_equal(a, b, equal_nan=True) for a, b in zip(g1, g2)):
+        out.append(("rnd: the same history of draws started from the same seed gives the same samples (reproducible from a seed)",
+                    [a.ravel().tolist() for a in g1], [a.ravel().tolist() for a in g2]))
+    return out
+
+
 def run(chk):
     chk.extra["rule"] = RULE
     chk.partial += ["Gumbel / GumbelMin mean, std, skew, kurt constants (Euler-Mascheroni, pi/sqrt 6, zeta(3), 12/5): checked "
@@ -73,6 +170,11 @@ def run(chk):
     drv = core.Driver()
     N = 60 if chk.quick else 600
     cases = [("wb", (0.0, 1.0, 2.0)), ("gm", (1.0, 2.0)), ("gu", (0.0, 1.0))]
+    corpus = core.load_corpus("C15")
+    for c in corpus:
+        key = (c["dist"], tuple(float(v) for v in c["params"]))
+        if key not in cases:
+            cases.append(key)
     for _ in range(N):
         kind = rng.choice(["wb", "gu", "gm"])
         loc = rng.choice([0.0, round(rng.uniform(-50, 50), 3)])
@@ -95,6 +197,9 @@ def run(chk):
         xs = [float(v) for v in d.invcdf(p=qs)]
         if kind == "wb":
             xs.append(loc)
+        # far tails: exp() underflow / overflow region (both sides where the support is unbounded)
+        kt = rng.choice(TAIL_K)
+        xs += [loc + 30.0 * scale, loc + kt * scale] + ([] if kind == "wb" else [loc - 30.0 * scale, loc - kt * scale])
         # generated parameter order is alphabetical
         for x in xs:
             if kind == "wb":
@@ -128,8 +233,9 @@ def run(chk):
         chk.count("dist." + what)
         inp = dict(dist=kind, params=par, method=what, arg=arg)
         if what in ("cdf", "pdf"):
-            im = float(getattr(d, what)(x=[arg])[0])
-            mv = unfbits(o.split()[1])
+            with np.errstate(all="ignore"):
+                im = float(getattr(d, what)(x=[arg])[0])
+            mv = ext(o)
         elif what == "invcdf":
             with np.errstate(all="ignore"):
                 im = float(d.invcdf(p=[arg])[0])
@@ -195,6 +301,19 @@ def run(chk):
             if not (np.array_equal(r1, r2) and np.allclose(r1, d.invcdf(p=u), rtol=1e-14)):
                 chk.fail("rnd(seed) == invcdf(uniforms of that seed), reproducible", dict(inp, seed=sd), d.invcdf(p=u).tolist(), r1.tolist())
                 break
+        # rnd histories: several draws on this object and a second one, seeded / unseeded, different sizes
+        hists = [dict(h) for c in corpus if c.get("check") == "rnd-history" and (c["dist"], tuple(c["params"])) == (kind, par)
+                 for h in [{k: c[k] for k in ("global_seed", "steps", "other")}]]
+        hists += [gen_history(rng, cases) for _ in range(2 if chk.quick else 4)]
+        for h in hists:
+            chk.count("rnd-history")
+            chk.dist("rnd-history:%s" % ("caller-seeded" if h["global_seed"] is not None else "first-draw-seeded"))
+            for orc, exp_, obs in history_clauses(d, h):
+                chk.fail(orc, dict(inp, check="rnd-history", **h), exp_, obs)
+        # far tails
+        chk.count("far-tails")
+        for orc, exp_, obs, xt in tail_clauses(d, kind, par):
+            chk.fail(orc, dict(inp, check="tails"), exp_, obs, x=xt)
         # density at the lower end of the Weibull support (first point of the default grid)
         if kind == "wb" and par[2] >= 1.0:
             with np.errstate(all="ignore"):
@@ -263,6 +382,27 @@ def run(chk):
 def replay(rp):
     inp = rp["input"]
     d = make(inp["dist"], tuple(inp["params"]))
+    if inp.get("check") in ("tails", "rnd-history"):
+        if inp["check"] == "tails":
+            res = [(o, e, g) for o, e, g, _ in tail_clauses(d, inp["dist"], tuple(inp["params"]))]
+        else:
+            res = history_clauses(d, inp)
+        for o, e, g in res:
+            print("FAILS:", o)
+            print("   expected:", e)
+            print("   observed:", g)
+        print("replay: %d failing clause(s)" % len(res))
+        return 1 if res else 0
+    if "seed" in inp:
+        sd = inp["seed"]
+        r1 = d.rnd(size=7, seed=sd)
+        r2 = d.rnd(size=7, seed=sd)
+        ex = d.invcdf(p=np.random.RandomState(sd).random_sample(7))
+        bad = 0 if (np.array_equal(r1, r2) and np.allclose(r1, ex, rtol=1e-14)) else 1
+        print("rnd(size=7, seed=%d):" % sd, r1.tolist())
+        print("invcdf(uniforms)    :", ex.tolist())
+        print("replay: %d failing clause(s)" % bad)
+        return bad
     qm = quad_moments(d, inp["dist"], tuple(inp["params"]))
     rep = (float(d.mean), float(d.std), float(d.skew), float(d.kurt))
     print("reported (mean,std,skew,kurt):", rep)
